@@ -46,6 +46,7 @@ class SimFS:
         self.open_files = []
         self.next_fd = 10
         self.fds = {}
+        self.raw_fds = {}
         # fault machinery
         self.armed = False
         self.opno = 0
@@ -245,6 +246,53 @@ class SimFS:
             return io.TextIOWrapper(raw, encoding=encoding or "utf-8", errors=errors, newline=newline)
         raise ValueError(f"SimFS: unsupported mode {mode!r}")
 
+    # ------------------------------------------------------- os.open / os.fdopen
+    O_RDONLY, O_WRONLY, O_RDWR, O_CREAT, O_EXCL, O_TRUNC, O_APPEND = 0, 1, 2, 64, 128, 512, 1024
+
+    def os_open(self, path, flags, mode=0o777):
+        path = self.norm(path)
+        post = self._point("open", path)
+        ino = self.files.get(path)
+        if ino is None:
+            if not flags & self.O_CREAT:
+                raise FileNotFoundError(errno.ENOENT, "No such file or directory", path)
+            if posixpath.dirname(path) not in self.dirs:
+                raise FileNotFoundError(errno.ENOENT, "No such file or directory", path)
+            if posixpath.dirname(path) in self.readonly:
+                raise PermissionError(errno.EACCES, "Permission denied", path)
+            ino = Inode()
+            self.files[path] = ino
+            self.journal.append(("link", path, ino))
+        elif flags & self.O_CREAT and flags & self.O_EXCL:
+            raise FileExistsError(errno.EEXIST, "File exists", path)
+        if flags & self.O_TRUNC:
+            ino.cache = b""
+        fd = self.next_fd
+        self.next_fd += 1
+        self.raw_fds[fd] = (path, ino, flags)
+        self._after(post, "open")
+        return fd
+
+    def fdopen(self, fd, mode="r", buffering=-1, encoding=None, errors=None, newline=None):
+        path, ino, flags = self.raw_fds.pop(fd)
+        if "r" in mode and "+" not in mode:
+            raw = io.BytesIO(ino.cache)
+            return raw if "b" in mode else io.TextIOWrapper(raw, encoding=encoding or "utf-8", errors=errors, newline=newline)
+        pos = len(ino.cache) if (flags & self.O_APPEND or "a" in mode) else 0
+        return SimWriteFile(self, path, ino, "b" in mode, encoding or "utf-8", fd=fd, pos=pos)
+
+    def os_close(self, fd):
+        self.raw_fds.pop(fd, None)
+        fobj = self.fds.get(fd)
+        if fobj is not None:
+            fobj.close()
+
+    def getsize(self, path):
+        ino = self.files.get(self.norm(path))
+        if ino is None:
+            raise FileNotFoundError(errno.ENOENT, "No such file or directory", path)
+        return len(ino.cache)
+
     # ----------------------------------------------------------------- crash
     def crash(self, mode="strict", journal_keep=None, data_mode="kept", cut=0.5):
         """Resolve the on-disk state after the process died and return a new SimFS.
@@ -297,7 +345,7 @@ class SimFS:
 class SimWriteFile:
     """File object returned for write modes."""
 
-    def __init__(self, fs, path, inode, binary, encoding):
+    def __init__(self, fs, path, inode, binary, encoding, fd=None, pos=0):
         self.fs = fs
         self.path = path
         self.name = path
@@ -306,8 +354,11 @@ class SimWriteFile:
         self.encoding = encoding
         self.buf = bytearray()
         self.closed = False
-        self.fd = fs.next_fd
-        fs.next_fd += 1
+        self.pos = pos  # file offset of the next OS-level write (os.open without O_TRUNC overwrites in place)
+        if fd is None:
+            fd = fs.next_fd
+            fs.next_fd += 1
+        self.fd = fd
         fs.fds[self.fd] = self
         self.mode = "wb" if binary else "w"
 
@@ -340,12 +391,17 @@ class SimWriteFile:
         data = bytes(self.buf)
         if post == "ENOSPC":
             keep = len(data) // 2
-            self.inode.cache += data[:keep]
+            self._put(data[:keep])
             del self.buf[:keep]
             raise OSError(errno.ENOSPC, "No space left on device (simulated)", self.path)
-        self.inode.cache += data
+        self._put(data)
         del self.buf[:]
         SimFS._after(post, opname)
+
+    def _put(self, data):
+        cache = self.inode.cache
+        self.inode.cache = cache[:self.pos] + data + cache[self.pos + len(data):]
+        self.pos += len(data)
 
     def write(self, data):
         if self.closed:
@@ -474,6 +530,30 @@ class _DynPath:
     def exists(path):
         return FsHolder.fs.exists(path)
 
+    @staticmethod
+    def getsize(path):
+        return FsHolder.fs.getsize(path)
+
+    @staticmethod
+    def isdir(path):
+        return FsHolder.fs.norm(path) in FsHolder.fs.dirs
+
+    @staticmethod
+    def isabs(path):
+        return str(path).startswith("/")
+
+    @staticmethod
+    def normpath(path):
+        return posixpath.normpath(path)
+
+    @staticmethod
+    def expanduser(path):
+        return path
+
+    @staticmethod
+    def islink(path):
+        return False
+
 
 class DynOsShim:
     """Process-wide ``os`` stand-in delegating to FsHolder.fs."""
@@ -507,3 +587,38 @@ class DynOsShim:
     @staticmethod
     def getcwd():
         return FsHolder.fs.cwd
+
+    O_RDONLY, O_WRONLY, O_RDWR, O_CREAT, O_EXCL, O_TRUNC, O_APPEND = 0, 1, 2, 64, 128, 512, 1024
+    sep = "/"
+    linesep = "\n"
+    name = "posix"
+    error = OSError
+
+    @staticmethod
+    def open(path, flags, mode=0o777):
+        return FsHolder.fs.os_open(path, flags, mode)
+
+    @staticmethod
+    def fdopen(fd, *args, **kwargs):
+        return FsHolder.fs.fdopen(fd, *args, **kwargs)
+
+    @staticmethod
+    def close(fd):
+        return FsHolder.fs.os_close(fd)
+
+    @staticmethod
+    def makedirs(path, mode=0o777, exist_ok=False):
+        FsHolder.fs.mkdir(path)
+
+    @staticmethod
+    def chmod(path, mode):
+        return None
+
+    @staticmethod
+    def listdir(path="."):
+        base = FsHolder.fs.norm(path)
+        return sorted(p[len(base) + 1:] for p in FsHolder.fs.files if posixpath.dirname(p) == base)
+
+    @staticmethod
+    def fspath(path):
+        return str(path)
